@@ -244,16 +244,17 @@ def iteritems6(x):
 
 class RBQLRecord:
     def __init__(self):
-        self.storage = dict()
+        # The attribute name is mangled: column names become attributes of this object (`a.name`), and a column could be called "storage".
+        self.__storage = dict()
 
     def __getitem__(self, key):
         try:
-            return self.storage[key]
+            return self.__storage[key]
         except KeyError:
             raise InternalBadKeyError(key)
 
     def __setitem__(self, key, value):
-        self.storage[key] = value
+        self.__storage[key] = value
 
 
 def safe_get(record, idx):
